@@ -1,4 +1,5 @@
 """Shared run logic of the IOStreamContract checks (C11, C12, C13)."""
+import hashlib
 import random
 import time
 
@@ -9,17 +10,27 @@ _INDEX = None
 _VARIANTS = None
 
 
+_SPREAD = False
+
+
 def _replayer(extra, path):
-    for v in _VARIANTS:
+    vs = _VARIANTS
+    if _SPREAD and len(vs) > 1:
+        # quick tier: each path under one variant, the variants spread evenly over the path set
+        k = int(hashlib.sha1(framework.jdump([[s["act"], s["args"]] for s in path]).encode()).hexdigest()[:8], 16)
+        vs = [vs[k % len(vs)]]
+    for v in vs:
         r = nd.replay_stream(extra, path, v, _INDEX)
         if r is not None:
             return r
     return None
 
 
-def s2c_stream(ctx, gen_cfg, overrides, variants, label="s2c", nontrivial=None):
-    """All paths of the bounded state graph (TLC) replayed on the real stream under each variant."""
-    global _INDEX, _VARIANTS
+def s2c_stream(ctx, gen_cfg, overrides, variants, label="s2c", nontrivial=None, spread=False):
+    """All paths of the bounded state graph (TLC) replayed on the real stream under each variant
+    (spread=True: under one variant per path, chosen by a hash of the path)."""
+    global _INDEX, _VARIANTS, _SPREAD
+    _SPREAD = spread
     t0 = time.time()
     paths = nd.graph_paths(ctx, "net", "GenG_IOStreamContract", gen_cfg, overrides=overrides)
     ctx._phase("gen:" + gen_cfg, t0)
@@ -223,7 +234,7 @@ def random_stream_trace(job):
 
 
 def c2s_stream(ctx, mode, n, length=None):
-    length = length or ctx.pick(40, 60)
+    length = length or ctx.pick(30, 60)
     jobs = [(i + 1, ctx.seed * 1000003 + i * 7919 + {"read": 1, "write": 2, "close": 3}[mode], mode, length) for i in range(n)]
     t0 = time.time()
     traces = framework.pool_map(random_stream_trace, jobs)
@@ -299,8 +310,10 @@ def conn_trace_sig(t, bad, l):
             "modes": sorted(set(t["cfg"]["mode"]))}
 
 
-def c2s_connector(ctx, n, create_modes=False, label="c2s"):
-    jobs = [(i + 1, ctx.seed * 1000003 + i * 104729 + (17 if create_modes else 5), 30, create_modes) for i in range(n)]
+def c2s_connector(ctx, n, n_create=0, label="c2s"):
+    """n random schedules with asynchronous / synchronous outcomes plus n_create with failing stream
+    creation, validated in one TLC batch."""
+    jobs = [(i + 1, ctx.seed * 1000003 + i * 104729 + 5, 30, i >= n) for i in range(n + n_create)]
     t0 = time.time()
     traces = framework.pool_map(random_connector_trace, jobs)
     ctx._phase("record:connector", t0)
